@@ -503,3 +503,35 @@ mod if_std {
 
 #[cfg(feature = "std")]
 pub use self::if_std::*;
+
+#[cfg(futures_intrusive_verif)]
+impl<MutexType: RawMutex, T> GenericMutex<MutexType, T> {
+    /// Verification hook: the wait queue from head (newest) to tail (oldest).
+    pub fn verif_snapshot(&self, out: &mut [crate::verif::VerifNode]) -> usize {
+        let guard = self.state.lock();
+        let mut n = 0;
+        guard.waiters.verif_for_each(out.len(), |node| {
+            out[n] = crate::verif::VerifNode {
+                addr: node as *const _ as usize,
+                state: match node.state {
+                    PollState::New => 0,
+                    PollState::Waiting => 1,
+                    PollState::Notified => 2,
+                    PollState::Done => 3,
+                },
+                waker: crate::verif::waker_data(&node.task),
+                extra: 0,
+            };
+            n += 1;
+        });
+        n
+    }
+}
+
+#[cfg(futures_intrusive_verif)]
+impl<'a, MutexType: RawMutex, T> GenericMutexLockFuture<'a, MutexType, T> {
+    /// Verification hook: address of the embedded wait node.
+    pub fn verif_node_addr(&self) -> usize {
+        &self.wait_node as *const _ as usize
+    }
+}
